@@ -71,12 +71,13 @@ KINDS = (
     "raise_sysexit",
     "fail1_sysexit",
     "fire1_hops",
+    "logerr_new",
     "reg_cleanup",
 )
 DELAY = {"fire1": 1.0, "fire2": 2.0, "fail1": 1.0, "fail1_falsy": 1.0, "fail1_sysexit": 1.0, "fire1_hops": 1.0}
 # exceptions that do not derive from Exception: reported as an error AND re-raised by run()
 NON_EXCEPTION = ("raise_sysexit", "fail1_sysexit")
-DIRTY_RETURN = ("junk", "junk_chain", "logerr", "drop_failed")
+DIRTY_RETURN = ("junk", "junk_chain", "logerr", "logerr_new", "drop_failed")
 FAILING = ("raise_error", "raise_failure", "raise_skip", "raise_falsy_error", "fail1_falsy", "fail1", "failed", "raise_sysexit", "fail1_sysexit")
 TIMEOUTS = (0.5, 1.0, 1.5, 2.0, 3.5, 100.0)
 
@@ -134,6 +135,13 @@ def behave(case, ctx, stage):
         return None
     if k == "logerr":
         tlog.err(StageError(stage))
+        return None
+    if k == "logerr_new":
+        # the same, through the twisted.logger API (what Twisted itself uses nowadays)
+        from twisted.logger import Logger
+        from twisted.python.failure import Failure
+
+        Logger(namespace="vt").failure("stage failed", Failure(StageError(stage)))
         return None
     if k == "logerr_flushed":
         tlog.err(StageError(stage))
@@ -250,7 +258,7 @@ def model(ncleanups, decisions, timeout, stage_first_at_tie=False):
                 # (a Deferred that fires some iterations after the timeout's always loses the tie)
                 if k == "fire1_hops" or not (stage_first_at_tie and remaining_sync):
                     tie_timeout = True
-        if k == "logerr":
+        if k in ("logerr", "logerr_new"):
             pending_logged += 1
         elif k == "logerr_flushed":
             pending_logged = 0  # flush_logged_errors(StageError) also flushes earlier ones
@@ -280,6 +288,15 @@ def _following(stages, st, k):
     if st == "setUp" and k in FAILING:
         rest = [s for s in rest if s not in ("test", "tearDown")]
     return rest
+
+
+class _AlwaysDefault:
+    """Chooser stand-in for the follow-up test: every behaviour and tie takes its default."""
+
+    trace = ()
+
+    def choose(self, label, n, costs=None):
+        return 0
 
 
 class ForeignObserver:
@@ -387,6 +404,23 @@ def execute(config, chooser):
         if sorted(map(id, legacy_before)) != sorted(map(id, legacy_after)):
             problems.append(("observers", "legacy log observers before %r, after %r" % (legacy_before, legacy_after)))
         obs = (tuple(ctx.decisions), outcome, interrupt_at, tuple(seq))
+        if any(k in ("logerr", "logerr_new") for _, k in ctx.decisions) and (interrupted or m["timed_out"]):
+            # the run was abandoned with an error logged and not flushed: the NEXT test (same
+            # process, same runner) must not inherit it
+            ctx2 = Ctx(_AlwaysDefault(), reactor)
+            case2 = make_class(0)("test_it", runTest=factory)
+            case2._ctx = ctx2
+            result2 = rec.Ext()
+            reactor.scrub()
+            reactor.arm(_AlwaysDefault(), max_interrupts=0, ties=False)
+            try:
+                case2.run(result2)
+                outs2 = [e[0] for e in result2.log if e[0] in rec.OUTCOMES]
+            except BaseException as e:
+                outs2 = ["run() raised %s" % type(e).__name__]
+            reactor.disarm()
+            if outs2 != ["addSuccess"]:
+                problems.append(("next-test-polluted", "a clean test run right after this one gave %r (details %r)" % (outs2, [sorted((e[3] or {}).keys()) for e in result2.log if e[0] in rec.OUTCOMES and len(e) > 3])))
     finally:
         reactor.disarm()
         if fo is not None:
